@@ -190,7 +190,10 @@ U_SCALE = Unit(P + '/lemma-scaling', [], t_scaling, SCH, kind='lemma')
 
 
 # ---------------------------------------------------------------- the radiation sum (free space / ideal ground)
+import os as _os
 SHAPES = [(1, 2, 2), (2, 1, 1), (1, 1, 3)]        # (zenith angles, azimuths, pulses) of the shape-bounded runs
+if _os.environ.get('VERIF_TIER_EFFECTIVE') == 'thorough':
+    SHAPES += [(2, 2, 2), (1, 3, 1), (3, 1, 2)]
 
 
 def sym_nd(shape, base):
